@@ -175,6 +175,8 @@ def value_desc(rng, rt, cls, b):
         return ["int", "0"]
     fields = G.STRUCTS[rt]
     oks = [b.item_ok(f) for f in fields]
+    if cls == "err":            # like MC_CallCb.Val(n, "err"): non-zero in every field, so that the error value is
+        return ["list", [nonzero_item(b, f) for f in fields]]       # distinguishable from zeros field by field
     if cls == "short":          # fewer items than fields: the rest must reach C as zeros
         return [rng.choice(["list", "tuple"]), oks[:rng.randint(0, len(fields) - 1)]]
     if cls == "dshort":
@@ -187,6 +189,16 @@ def value_desc(rng, rt, cls, b):
             return ["list", oks[:-1] + [b.item_ovf(fields[-1])]]
         return ["list", oks + [["int", "1"]]]           # too many initializers
     return ["none"] if rng.random() < 0.5 else ["list", oks[:-1] + [["none"]]]
+
+
+def nonzero_item(b, f):
+    """a convertible item of scalar field type f whose C image is not all zero bytes"""
+    for _ in range(8):
+        d = b.item_ok(f)
+        if not ((d[0] == "int" and int(d[1]) == 0) or (d[0] == "bytes" and not any(d[1]))
+                or (d[0] == "float" and (G.narrow(G.unhex(d[1])) if f == "f32" else G.unhex(d[1])) == 0.0)):
+            return d
+    return {"bytes": ["bytes", [1]], "float": ["float", G.fhex(1.0)]}.get(d[0], ["int", "1"])
 
 
 def enc_value(d):
